@@ -247,4 +247,4 @@ Qed.
 
 (* a ConsistencyCheck-shaped history never kills the straight master replica either *)
 Definition f7_cc_example : list (N * mcmd) :=
-  [(1, MRegCurator); (2, MCkReq); (3, MSetRO true); (4, MCkVerify 2 (m_checksum (mkM [0] 2 1 false))); (5, MSetRO false); (6, MNewPart 1)].
+  [(1, MRegCurator); (2, MCkReq); (3, MSetRO true); (4, MCkVerify 2 1624963391); (5, MSetRO false); (6, MNewPart 1)].
